@@ -1,12 +1,15 @@
 import SmtpV.Proofs.ServerInv
 import SmtpV.Spec.Monitors
+import SmtpV.Props.C03
+import SmtpV.Proofs.OrderFacts
 /-!
 # C09 — AUTH is unreachable on insecure connections; the octets cross unaltered (server side)
 
 Proved here: on a connection where AUTH is not permitted `handleAuth` consults nothing and writes
 replies only; the base64 layer is exact (`decode ∘ encode = id` on all octet strings).  At-most-once and
-the TLS-state rules are part of the ordering monitor (Spec/Order.lean), judged on recorded traces; the
-whole-loop theorem is work in progress (see C03).
+the TLS-state rules are part of the ordering monitor (Spec/Order.lean), which accepts every connection of the
+server model (`order_accepts_every_connection`); `C09_never_on_insecure_connection` and `C09_at_most_once` below
+are its consequences stated on the trace itself.
 -/
 namespace SmtpV.Props.C09
 open SmtpV SmtpV.Spec SmtpV.Server SmtpV.Reply
@@ -155,5 +158,28 @@ theorem C09_empty_initial_response : decodeSASLResponse [61] = some [] := by dec
 
 example : b64Decode (b64Encode [0, 255, 254, 1]) = some [0, 255, 254, 1] := by decide +kernel
 example : b64Decode "A===".b = none := by decide +kernel
+
+/-! ### whole connections: consequences of the ordering theorem, stated on the trace -/
+open SmtpV.Spec.Order in
+/-- **C09_never_on_insecure_connection.**  On a connection that starts in plaintext and never completes a TLS
+    handshake, with `AllowInsecureAuth` off: whatever the peer sends (any octets, any segmentation, any number of AUTH
+    attempts, any pipelining) and whatever the backend would answer, the complete trace of the connection contains
+    no `Auth(mech)` call and no SASL step — the mechanism never receives a single octet. -/
+theorem C09_never_on_insecure_connection (s : S) (h : Props.C03.Fresh s) (hins : s.cfg.insecureAuth = false)
+    (htls : s.c.tls = false) (hno : ∀ e ∈ (serve s).evs.reverse, isTlsUp e = false) :
+    ∀ e ∈ (serve s).evs.reverse, isAuthEv e = false := by
+  obtain ⟨m, hm⟩ := run_ok_of_check (Props.C03.order_accepts_every_connection s h)
+  exact accepted_insecure_no_auth hm hins (by simp [abs, htls]) hno
+
+open SmtpV.Spec.Order in
+/-- **C09_at_most_once.**  On every connection: once a SASL exchange has succeeded, no `Auth(mech)` call and no SASL
+    step happens until that session has ended (Logout — which is what STARTTLS and a new greeting do to it — and a
+    new session). -/
+theorem C09_at_most_once (s : S) (h : Props.C03.Fresh s) (pre mid post : List Ev) (e1 e2 : Ev)
+    (htr : (serve s).evs.reverse = pre ++ e1 :: (mid ++ e2 :: post))
+    (h1 : isAuthSuccess e1 = true) (h2 : isAuthEv e2 = true) : ∃ e ∈ mid, endsSession e = true := by
+  obtain ⟨m, hm⟩ := run_ok_of_check (Props.C03.order_accepts_every_connection s h)
+  rw [htr] at hm
+  exact accepted_auth_once hm h1 h2
 
 end SmtpV.Props.C09
